@@ -460,6 +460,26 @@ def _conditional_expressions(tree):
                     blk[i] = new
 
 
+def _star_dict_calls(tree):
+    """``f(**{'a': x, 'b': y})`` is ``f(a=x, b=y)``."""
+    for n in ast.walk(tree):
+        if not isinstance(n, ast.Call):
+            continue
+        new = []
+        for k in n.keywords:
+            if k.arg is None and isinstance(k.value, ast.Dict) and \
+                    k.value.keys and all(
+                        isinstance(x, ast.Constant) and isinstance(
+                            x.value, str) and x.value.isidentifier()
+                        for x in k.value.keys):
+                for kk, vv in zip(k.value.keys, k.value.values):
+                    new.append(ast.copy_location(
+                        ast.keyword(arg=kk.value, value=vv), k))
+            else:
+                new.append(k)
+        n.keywords = new
+
+
 def _negate(t):
     """``not t`` in its plainest spelling: double negation is removed and
     the exact complements is / is not, in / not in, == / != are flipped."""
@@ -492,6 +512,7 @@ def normalise(tree):
     _plain_idioms(tree)
     _filtered_iteration(tree)
     _conditional_expressions(tree)
+    _star_dict_calls(tree)
     changed = True
     rounds = 0
     while changed and rounds < 50:
